@@ -37,6 +37,20 @@ def _exits(block):
     return False
 
 
+def _continuing(st):
+    """Conditions that hold after an `if` statement on every path that falls through it, as a conjunction of (test, polarity):
+    `if A: exit` gives not A; `if A: exit / elif B: exit / elif C: ...` gives not A and not B (and whatever the last arm gives);
+    `if A: ... else: exit` gives A.  () when nothing can be said."""
+    if _exits(st.body):
+        out = ((st.test, False),)
+        if len(st.orelse) == 1 and isinstance(st.orelse[0], ast.If):
+            out = out + _continuing(st.orelse[0])
+        return out
+    if st.orelse and _exits(st.orelse):
+        return ((st.test, True),)
+    return ()
+
+
 def walk(func_node):
     """Yield (stmt, Ctx) for every statement of a function body in source order (nested defs skipped)."""
     def rec(block, conds, loops, parent):
@@ -47,10 +61,7 @@ def walk(func_node):
             if isinstance(st, ast.If):
                 yield from rec(st.body, c + ((st.test, True),), loops, st)
                 yield from rec(st.orelse, c + ((st.test, False),), loops, st)
-                if _exits(st.body) and not st.orelse:
-                    extra = extra + ((st.test, False),)
-                elif st.orelse and _exits(st.orelse) and not _exits(st.body):
-                    extra = extra + ((st.test, True),)
+                extra = extra + _continuing(st)
             elif isinstance(st, (ast.For, ast.While)):
                 yield from rec(st.body, c, loops + (st,), st)
                 yield from rec(st.orelse, c, loops, st)
